@@ -186,6 +186,27 @@ func c04R1(c *Ctx, p *Prog, R string) {
 						}
 					}
 				}
+				if !found && o.Term == "return" && len(o.Results) == 1 {
+					// a helper that returns the Value it built: judge the returned struct
+					r := o.Results[0]
+					if r.Op == "struct" {
+						for f, v := range r.Fields {
+							fields[f] = v
+							found = true
+						}
+					} else if r.Op == "load" {
+						base := r.Args[0].String()
+						for _, f := range []string{"Unit", "Value", "OrigUnit", "OrigValue"} {
+							if v, ok := o.Mem["&"+base+"."+f]; ok {
+								fields[f] = v
+								found = true
+							}
+						}
+					}
+					if _, hasUnit := fields["Unit"]; !hasUnit {
+						found = false
+					}
+				}
 				if !found {
 					continue
 				}
@@ -960,12 +981,7 @@ func c04R4(c *Ctx, p *Prog) {
 		for i, st := range storesToField(fn, keyUnitF) {
 			n++
 			key := fmt.Sprintf("%s:store UnitMetadataKey.Unit#%d", fnName(fn), i)
-			ok := false
-			for _, tc := range callsIn(fn, tidyPkg, "", "Tidy") {
-				if extractOf(st.Val, tc.Value(), 1) {
-					ok = true
-				}
-			}
+			ok := isTidyUnit(fn, st.Val, 0)
 			c.Check(ok, R, key, p.pos(instrPos(st)), "metadata key uses Tidy's unit", "metadata key is built from a unit that did not pass through benchunit.Tidy: "+valStr(st.Val))
 		}
 	}
@@ -1218,4 +1234,33 @@ func memDump(o *e6Outcome) string {
 	}
 	sort.Strings(ks)
 	return strings.Join(ks, " ; ")
+}
+
+// isTidyUnit: v is the unit result of benchunit.Tidy, directly or as the result of a function of the package every
+// return of which yields Tidy's unit (a wrapper such as tidyUnitName).
+func isTidyUnit(fn *ssa.Function, v ssa.Value, depth int) bool {
+	if depth > 3 {
+		return false
+	}
+	for _, tc := range callsIn(fn, tidyPkg, "", "Tidy") {
+		if extractOf(v, tc.Value(), 1) {
+			return true
+		}
+	}
+	if call, ok := v.(*ssa.Call); ok {
+		if h := call.Call.StaticCallee(); h != nil && h.Blocks != nil && h.Pkg == fn.Pkg && h.Signature.Results().Len() == 1 {
+			all := true
+			n := 0
+			for _, b := range h.Blocks {
+				if ret, ok := b.Instrs[len(b.Instrs)-1].(*ssa.Return); ok {
+					n++
+					if !isTidyUnit(h, retVal(ret, 0), depth+1) {
+						all = false
+					}
+				}
+			}
+			return all && n > 0
+		}
+	}
+	return false
 }
